@@ -356,51 +356,62 @@ structure PLResp where
   panic : Bool := false
   deriving Repr
 
+/-- a foreign lock on the key: deadlock detection or a `locked` error with the wait-for edge recorded -/
+def plForeign (e : Entry) (wf : WaitFor) (r : PLReq) (m : Mutation) : Option (KErr × WaitFor) :=
+  match e.lock with
+  | some l =>
+    if l.startTS != r.startTS then
+      if doDetect wf 64 r.startTS l.startTS then some (.deadlock m.key l.startTS, wf)
+      else some (lockErr l m.key, wfRegister wf r.startTS l.startTS)
+    else none
+  | none => none
+
+def plOwnPrewrite (e : Entry) : Bool :=
+  match e.lock with
+  | some l => l.op != .pessimisticLock
+  | none => false
+
+def valNonEmpty (val : Option Bytes) : Bool :=
+  match val with | some v => !v.isEmpty | none => false
+
+def plRes (r : PLReq) (val : Option Bytes) (conflict : Option KErr) : Option PLResult :=
+  match conflict with
+  | some (.conflict _ _ cc _ _) => some (.lockedWithConflict val (valNonEmpty val) cc)
+  | _ =>
+    if r.returnValues then some (.normal val (valNonEmpty val))
+    else if r.checkExistence then some (.normal none (valNonEmpty val))
+    else some (.normal none false)
+
+def plWrite (e : Entry) (r : PLReq) : Bool :=
+  match e.lock with
+  | some l => l.forUpdateTS < r.forUpdateTS
+  | none => true
+
+def plNewLock (r : PLReq) : Lock :=
+  ⟨r.startTS, r.primary, [], .pessimisticLock, r.ttl, r.forUpdateTS, 0, r.minCommitTS⟩
+
+def plArgs (r : PLReq) (m : Mutation) : CCArgs :=
+  ⟨m, r.forUpdateTS, r.startTS, true, false, r.lockOnlyIfExists, r.wakeUp == .forceLock⟩
+
 /-- pessimisticLockMutation: (error?, result?, batch entries, new wait-for map) -/
 def plMutation (s : Store) (wf : WaitFor) (r : PLReq) (m : Mutation) :
     Option KErr × Option PLResult × List Act × WaitFor :=
   if r.lockOnlyIfExists && !r.returnValues then (some (.abort "lockOnlyIfExists"), none, [], wf)
   else
-    let e := getEntry s.kv m.key
-    let foreign : Option (KErr × WaitFor) :=
-      match e.lock with
-      | some l =>
-        if l.startTS != r.startTS then
-          if doDetect wf 64 r.startTS l.startTS then some (.deadlock m.key l.startTS, wf)
-          else some (lockErr l m.key, wfRegister wf r.startTS l.startTS)
-        else none
-      | none => none
-    match foreign with
+    match plForeign (getEntry s.kv m.key) wf r m with
     | some (err, wf') => (some err, none, [], wf')
     | none =>
       -- C12-DEF: a pessimistic lock request over the transaction's own prewrite lock is refused (TiKV);
       -- the Go code falls through and replaces the prewrite lock
-      let ownPrewrite : Bool := match e.lock with
-        | some l => l.op != .pessimisticLock
-        | none => false
-      if ownPrewrite then (some (.abort "own-prewrite-lock"), none, [], wf)
+      if plOwnPrewrite (getEntry s.kv m.key) then (some (.abort "own-prewrite-lock"), none, [], wf)
       else
-      let force := r.wakeUp == .forceLock
-      let args : CCArgs := ⟨m, r.forUpdateTS, r.startTS, true, false, r.lockOnlyIfExists, force⟩
-      match checkConflictValue args e.writes with
+      match checkConflictValue (plArgs r m) (getEntry s.kv m.key).writes with
       | .error err => (some err, none, [], wf)
       | .ok (val, conflict) =>
-        let nonEmpty := match val with | some v => !v.isEmpty | none => false
-        let res : Option PLResult :=
-          match conflict with
-          | some (.conflict _ _ cc _ _) => some (.lockedWithConflict val nonEmpty cc)
-          | _ =>
-            if r.returnValues then some (.normal val nonEmpty)
-            else if r.checkExistence then some (.normal none nonEmpty)
-            else some (.normal none false)
-        if r.lockOnlyIfExists && !nonEmpty then (none, res, [], wf)
+        if r.lockOnlyIfExists && !valNonEmpty val then (none, plRes r val conflict, [], wf)
         else
-          let write : Bool := match e.lock with
-            | some l => l.forUpdateTS < r.forUpdateTS
-            | none => true
-          let newLock : Lock := ⟨r.startTS, r.primary, [], .pessimisticLock, r.ttl, r.forUpdateTS, 0, r.minCommitTS⟩
-          let acts := if write then [Act.putLock m.key newLock] else []
-          (none, res, acts, wf)
+          (none, plRes r val conflict,
+            if plWrite (getEntry s.kv m.key) r then [Act.putLock m.key (plNewLock r)] else [], wf)
 
 def plLoop (s : Store) (r : PLReq) (ms : List Mutation) (wf : WaitFor)
     (errs : List KErr) (results : List PLResult) (acts : List Act) : List KErr × List PLResult × List Act × WaitFor :=
